@@ -1,4 +1,5 @@
 import SaphyrVerif.Lemmas.C17Source
+import SaphyrVerif.Lemmas.C17Breaks
 /-!
 Helper lemmas for C17, part 8: `line_col_to_byte_offset_with_starts`, `next_char_boundary`, and the
 window / span computation shared by both renderers (`prepare`).
@@ -294,13 +295,38 @@ structure PreparedOk (text : List Char) (loc : Snippet.Loc) (m : Mapping) (p : P
   display : p.displayStartRow = absoluteRow m p.windowStartRow
   col_ok : 1 ≤ loc.column ∧ loc.column ≤ (visibleLine text p.row).length + 1
 
+/-- `prepare` after its `normalize_line_breaks` step: the computation on the text whose line breaks have
+been normalised (proof device: `prepare text = prepareOn (normBreaks text)`, by unfolding) -/
+def prepareOn (text : List Char) (loc : Snippet.Loc) (m : Mapping) (cropRadius : Nat) : Res (Option Prepared) :=
+  if loc.isUnknown then .ok none
+  else
+    match relativeRow m loc.line with
+    | none => .ok none
+    | some row =>
+      let starts := lineStarts text
+      if starts.isEmpty then .ok none
+      else if row = 0 ∨ row > starts.length then .ok none
+      else do
+        let some start ← lineColToByte text starts row loc.column | pure none
+        let endB ← spanEnd text start
+        let (ws, we) := windowRows row starts.length
+        let (a, bnd) ← windowBytes text starts ws we "fmt"
+        let w ← slice text a bnd "fmt:text[window_start..window_end]"
+        let ls := min (start - a) (blen w)
+        let le := min (endB - a) (blen w)
+        let (wt, ls', le') ← cropWindowText w ws row loc.column cropRadius ls le
+        pure (some ⟨wt, ls', le', row, ws, we, starts.length, absoluteRow m ws⟩)
+
+theorem prepare_norm (text : List Char) (loc : Snippet.Loc) (m : Mapping) (r : Nat) :
+    prepare text loc m r = prepareOn (normBreaks text) loc m r := rfl
+
 /-- (safety) the computation shared by `Snippet::fmt_or_fallback` and the crate's own window renderer
 never panics; when it yields a window, the window text is terminal-clean, the span is ordered and lies
 inside it, the window is at most `2·ctx+1` rows high and contains the row of the location -/
-theorem prepare_safe (text : List Char) (loc : Snippet.Loc) (m : Mapping) (r : Nat)
+theorem prepareOn_safe (text : List Char) (loc : Snippet.Loc) (m : Mapping) (r : Nat)
     (hlen : text.length + 1 ≤ usizeMax) (hcol : loc.column ≤ usizeMax) :
-    ∃ res, prepare text loc m r = .ok res ∧ ∀ p, res = some p → PreparedOk text loc m p := by
-  unfold prepare
+    ∃ res, prepareOn text loc m r = .ok res ∧ ∀ p, res = some p → PreparedOk text loc m p := by
+  unfold prepareOn
   by_cases hu : loc.isUnknown = true
   · rw [if_pos hu]; exact ⟨none, rfl, fun p h => by cases h⟩
   · rw [if_neg hu]
@@ -379,6 +405,14 @@ theorem prepare_safe (text : List Char) (loc : Snippet.Loc) (m : Mapping) (r : N
           · rw [if_neg hcc]
             simp only [Option.map_none]
             exact ⟨none, rfl, fun p h => by cases h⟩
+
+/-- (safety) `prepare` itself: the facts hold for the text with its line breaks normalised, i.e. for
+the lines of the text under the YAML rule -/
+theorem prepare_safe (text : List Char) (loc : Snippet.Loc) (m : Mapping) (r : Nat)
+    (hlen : text.length + 1 ≤ usizeMax) (hcol : loc.column ≤ usizeMax) :
+    ∃ res, prepare text loc m r = .ok res ∧ ∀ p, res = some p → PreparedOk (normBreaks text) loc m p := by
+  rw [prepare_norm]
+  exact prepareOn_safe (normBreaks text) loc m r (by rw [normBreaks_length]; exact hlen) hcol
 
 /-! ### decimal digits are clean -/
 
